@@ -44,12 +44,12 @@ type CStep struct {
 }
 
 type CScenario struct {
-	ID    int     `json:"id"`
-	Kind  string  `json:"kind"`
-	Init  CState  `json:"init"`
+	ID   int    `json:"id"`
+	Kind string `json:"kind"`
+	Init CState `json:"init"`
 	// Stimuli: the steps are inputs only (a walk of the specification with the shipped deviation): no state is compared
-	Stimuli bool `json:"stimuli"`
-	Steps []CStep `json:"steps"`
+	Stimuli bool    `json:"stimuli"`
+	Steps   []CStep `json:"steps"`
 }
 
 type cev struct {
